@@ -27,6 +27,7 @@ CONSTANTS D,            \* 1 or 2 periodic directions
           NSTEP,        \* nstep_print of process() = max(1, #cpus, ...)
           Accumulate,   \* TRUE: process() accumulates the mask of collected remotes (repaired code)
           SortedListing,\* TRUE: read_factors(iter<0) does not depend on the order of glob (repaired code)
+          CellSymmetric,\* TRUE: the group maps refinement cells onto refinement cells (square lattices); FALSE: hexagonal groups
           WaitFirstN    \* TRUE: ray.wait returns the first num_returns ready refs in input order; FALSE: any subset of that size
 
 RECURSIVE Pow(_, _)
@@ -43,7 +44,7 @@ Apply(g, c) == << (g[1] * c[1] + g[2] * c[2]) % U, (g[3] * c[1] + g[4] * c[2]) %
 Star(c)     == { Apply(g, c) : g \in Group }
 Equiv(a, b) == a.lev = b.lev /\ b.c \in Star(a.c)
 
-KP(c, l, f) == [c |-> c, lev |-> l, fac |-> f, ev |-> FALSE, st |-> "none"]
+KP(c, l, f) == [c |-> c, lev |-> l, fac |-> f, ev |-> FALSE, st |-> "none", sp |-> 0]   \* sp: index in the name of the result file _Kp-<sp-1>.pickle (0: not set)
 
 -----------------------------------------------------------------------------
 (* sequences of integers *)
@@ -186,6 +187,7 @@ SetResult(k, i) == [k EXCEPT ![i].ev = TRUE, ![i].st = StoreOf(mode, nit)]
 
 BeginProcess ==
   /\ pc = "process"
+  /\ kl' = [i \in 1..Len(kl) |-> IF i > nkprev THEN [kl[i] EXCEPT !.sp = i] ELSE kl[i]]   \* set_storage_path for the new points
   /\ LET s == Unevaluated(kl) IN
        /\ sel' = s /\ rsum' = Zeros(Len(kl))
        /\ IF s = <<>> THEN rsNone' = TRUE /\ pc' = "pickle"
@@ -193,7 +195,7 @@ BeginProcess ==
        /\ collected' = [i \in 1..Len(s) |-> 0]
   /\ done' = {} /\ old' = {} /\ ncalc' = 0 /\ ready' = {} /\ toCollect' = {}
   /\ act' = [name |-> "BeginProcess"]
-  /\ UNCHANGED <<disk, mode, kl, coef, resNone, facs, it, start, nit, nkprev, returned>>
+  /\ UNCHANGED <<disk, mode, coef, resNone, facs, it, start, nit, nkprev, returned>>
 
 NextSerial == CHOOSE t \in 1..Len(sel) : collected[t] = 0 /\ \A u \in 1..(t - 1) : collected[u] > 0
 EvalSerial ==
@@ -326,7 +328,7 @@ NoEquivDup == \A i, j \in 1..Len(kl) : i < j =>
 
 (* C06: every live K-point carries the weight of its orbit *)
 Live(k) == k.fac > 0
-OrbitWeight == \A i \in 1..Len(kl) : Live(kl[i]) =>
+OrbitWeight == \A i \in 1..Len(kl) : (Live(kl[i]) /\ (CellSymmetric \/ kl[i].lev = 0)) =>
      kl[i].fac * Pow(NDIV, D * kl[i].lev) = (IF mode.sym THEN Cardinality(Star(kl[i].c)) ELSE 1) * W0
 
 (* C06: the cells of the live K-points and of their symmetry images tile the Brillouin zone: every sample point
@@ -336,7 +338,7 @@ InCell(s, c, l)  == InCell1(s[1], c[1], Width(l)) /\ (D = 2 => InCell1(s[2], c[2
 Samples == IF D = 2 THEN (0..(U - 1)) \X (0..(U - 1)) ELSE (0..(U - 1)) \X {0}
 ImagesOf(k) == IF mode.sym THEN Star(k.c) ELSE {k.c}
 LiveImages == UNION { {<<i, c>> : c \in ImagesOf(kl[i])} : i \in {j \in 1..Len(kl) : Live(kl[j])} }
-Tiling == pc # "idle" =>
+Tiling == (pc # "idle" /\ (CellSymmetric \/ \A i \in 1..Len(kl) : Live(kl[i]) => kl[i].lev = 0)) =>
    \A s \in Samples : Cardinality({ ic \in LiveImages : InCell(s, ic[2], kl[ic[1]].lev) }) = 1
 
 (* C10: after every update the coefficient of each K-point's result in the integral equals its weight *)
@@ -348,6 +350,9 @@ CoefTotal(S) == LET RECURSIVE Sm(_)
 SavedWeightOne == \A g \in DOMAIN saved : CoefTotal(saved[g]) = WTOT
 ReturnedWeightOne == (pc = "idle" /\ returned # {}) => CoefTotal(returned) = WTOT
 
+(* C10 (dump_results): every K-point whose result lives on disk owns its result file *)
+DistinctStoragePaths == \A i, j \in 1..Len(kl) : (i < j /\ kl[i].st = "disk" /\ kl[j].st = "disk") => kl[i].sp # kl[j].sp
+
 (* C12: every remote result is collected exactly once *)
 CollectedOnce == \A t \in 1..Len(collected) : collected[t] <= 1
 AllCollected  == pc = "pickle" => \A t \in 1..Len(collected) : collected[t] = 1
@@ -355,5 +360,6 @@ AllCollected  == pc = "pickle" => \A t \in 1..Len(collected) : collected[t] = 1
 (* C11 (file level): the pickle and the set of factor files only grow while a directory lives *)
 PickleAppendOnly == [][pc # "idle" => IsPrefix(pick, pick')]_vars
 FactorFilesGrow  == [][pc # "idle" => DOMAIN ffiles \subseteq DOMAIN ffiles']_vars
-(* stored results are never needed after having been discarded *)
+(* C11: restart=True with the default restart_iteration resumes from the latest completed iteration *)
+ResumeLatest == [][(act'.name = "StartRestart" /\ act'.ri = -1) => start' = Max(DOMAIN ffiles)]_vars
 =============================================================================
